@@ -24,7 +24,9 @@ PLAN = {
 RULE_TEXT = (
     'program = generated single-batch upgrade (C01 generator, incl. new '
     'models in the same batch => model creation + deferred SQL, hinted or '
-    'written evolutions, 1-2 apps, rows present); for each program every '
+    'written evolutions, 1-2 apps - in 60% of the two-app programs both apps '
+    'create a model in the batch -, rows present, 25% of the programs evolve '
+    'the non-default database alias); for each program every '
     'eligible write statement index k of the uninterrupted run gets an '
     'injected OperationalError (scope evo: rebuild / index / model creation '
     '/ deferred SQL; scope book: version+evolution+migration bookkeeping), '
